@@ -156,3 +156,24 @@ Proof.
   eexists. exists [s_ID; s_TIME; s_DV], [[CNum (1#1); CNum (0#1); CNum (3#2)]; [CNum (1#1); CNum (1#1); CNum (5#2)]], (s_of [45;57;57]).
   split; [vm_compute; reflexivity|]. repeat split; vm_compute; reflexivity.
 Qed.
+
+(* ---- write_csv(model, new_path) + write_model(force=False): the regenerated $DATA record has lost its
+   ACCEPT list but still names the OLD, unfiltered file.  old: $INPUT ID TIME DV FLAG, ACCEPT=(FLAG.EQ.1),
+   data 1,0,1,1 / 1,1,2,0 ; in memory: the first row only; read back: both rows *)
+Definition stale_old : input :=
+  mkInput (s_of [49;44;48;44;49;44;49;10; 49;44;49;44;50;44;48;10])
+          [(s_ID, None); (s_TIME, None); (s_DV, None); (s_of [70;76;65;71], None)] None None
+          [] [mkFilt (s_of [70;76;65;71]) (Some (s_of [46;69;81;46])) (s_of [49])] (s_of [45;57;57]).
+Theorem stale_path_refuted :
+  exists (old : input) (ci : colinfo) (hdr : list str) (rows : list (list cell)),
+    column_info (i_options old) = Ok ci /\ g_renamed true false false = false /\
+    cycle_guard pr_toy (i_mdt old) hdr rows = true /\
+    match read_model old with Ok t => table_same t hdr rows | Err _ => false end = true /\
+    match read_model (written_input pr_toy true false old ci (i_mdt old) hdr rows) with
+    | Ok t => table_same t hdr rows
+    | Err _ => false
+    end = false.
+Proof.
+  exists stale_old. eexists. exists [s_ID; s_TIME; s_DV; s_of [70;76;65;71]], [[CNum (1#1); CNum (0#1); CNum (1#1); CNum (1#1)]].
+  split; [vm_compute; reflexivity|]. repeat split; vm_compute; reflexivity.
+Qed.
